@@ -155,6 +155,15 @@ class BadReprSelf:
     __str__ = __repr__
 
 
+class SurrogateRepr:
+    """an arbitrary (un-encodable) object whose text form contains a lone surrogate (a path-like object printing an undecodable file name raw)"""
+
+    def __repr__(self):
+        return "RawPath('report-\udcff.csv')"
+
+    __str__ = __repr__
+
+
 class StrSub(str):
     pass
 
@@ -181,6 +190,8 @@ SPECIAL = {
     "class": lambda: int,
     "strsub": lambda: StrSub("abc"),
     "surrogate": lambda: "caf\udce9",
+    "surrogate_repr": lambda: SurrogateRepr(),
+    "surrogate_in_set": lambda: {"\udcff"},
     "surrogate_key": lambda: {"k\udcff": 1},
     "nul": lambda: "a\x00b",
     "bigint": lambda: -(2 ** 70),
